@@ -268,7 +268,7 @@ def jobs(tier):
     try:
         seg = decompose(ex)
     except X.ExtractionBroken as e:
-        j = Job(unit='best_proof', config='skeleton', c_text='', entry='none', props=['C01', 'C03', 'C06'])
+        j = Job(unit='best_proof', config='skeleton', c_text='', entry='none', props=['C01', 'C02', 'C03', 'C06'])
         j.broken = 'loop skeleton of best() is not the one the inductive obligations were written for: %s' % e
         return [j]
     c = TEXT
@@ -286,5 +286,5 @@ def jobs(tier):
                                     'composition of base / step / exit obligations relies on the loop skeleton having the expected shape (checked textually each run) '
                                     'and is exercised by the bounded job best/bounded-nc*',
                                     'Skolemisation: proved for an arbitrary candidate E / position K, hence for all'],
-                       extracted=[ex], props=['C01', 'C03', 'C06'], timeout=300))
+                       extracted=[ex], props=['C01', 'C02', 'C03', 'C06'], timeout=300))
     return out
